@@ -9,7 +9,8 @@
  * user key has a sequence in (seq[i], S].  The iterator must behave as a
  * sorted-map cursor (C07/ref.h) over the visible entries.
  *
- * VP_MODE 0: VP_K symbolic operations among first/last/seek(symbolic user
+ * VP_MODE 0: VP_K steps (operation of step k chosen symbolically inside the set
+ *            VP_OS<k>, C07/ops.h) among first/last/seek(symbolic user
  *            key)/next/prev (next/prev only while valid = their REQUIRES).
  * VP_MODE 1: full forward scan (first, next*) then full backward scan
  *            (last, prev*): both yield exactly the visible entries, in
@@ -112,27 +113,27 @@ vp_apply(int op, int mask, const uint8_t *t) {
   /* mask (a constant per step) removes the excluded operations from the
      program, not only from the models */
   if ((mask & (1 << VP_OP_FIRST)) && op == VP_OP_FIRST) {
-      ldb_dbiter_first(vp_di);
-      vp_cur = vp_ref_first(&vp_ref);
+    ldb_dbiter_first(vp_di);
+    vp_cur = vp_ref_first(&vp_ref);
   } else if ((mask & (1 << VP_OP_LAST)) && op == VP_OP_LAST) {
-      ldb_dbiter_last(vp_di);
-      vp_cur = vp_ref_last(&vp_ref);
+    ldb_dbiter_last(vp_di);
+    vp_cur = vp_ref_last(&vp_ref);
   } else if ((mask & (1 << VP_OP_SEEK)) && op == VP_OP_SEEK) {
-      target.data = (uint8_t *)t;
-      target.size = 1;
-      target.alloc = 0;
-      ldb_dbiter_seek(vp_di, &target);
-      vp_cur = vp_ref_seek_ge(&vp_ref, t, 1);
+    target.data = (uint8_t *)t;
+    target.size = 1;
+    target.alloc = 0;
+    ldb_dbiter_seek(vp_di, &target);
+    vp_cur = vp_ref_seek_ge(&vp_ref, t, 1);
   } else if ((mask & (1 << VP_OP_NEXT)) && op == VP_OP_NEXT) {
-      if (vp_cur < 0)
-        return; /* REQUIRES: valid */
-      ldb_dbiter_next(vp_di);
-      vp_cur = vp_ref_next(&vp_ref, vp_cur);
+    if (vp_cur < 0)
+      return; /* REQUIRES: valid */
+    ldb_dbiter_next(vp_di);
+    vp_cur = vp_ref_next(&vp_ref, vp_cur);
   } else if ((mask & (1 << VP_OP_PREV)) && op == VP_OP_PREV) {
-      if (vp_cur < 0)
-        return;
-      ldb_dbiter_prev(vp_di);
-      vp_cur = vp_ref_prev(&vp_ref, vp_cur);
+    if (vp_cur < 0)
+      return;
+    ldb_dbiter_prev(vp_di);
+    vp_cur = vp_ref_prev(&vp_ref, vp_cur);
   } else {
     return;
   }
